@@ -110,10 +110,87 @@ def _task(arg):
         return {'infra': traceback.format_exc()[-1500:]}
 
 
+def _task_history(pj, pairs):
+    """History slice: for every ordered pair (A, B) of option sets, a FRESH copy of the function is converted through the
+    real `malt.to_graph` (process-wide transpiler and cache) first under A, then under B; what the API SERVES for each request
+    is checked with `noNative` under the option set of THAT request and with the dynamic operator counts."""
+    import inspect, textwrap
+    import malt
+    import c04_exprs as cx, c04_dyn as dyn
+    from malt.core import converter
+    prog = progen.Program.from_json(pj)
+    prog.kind = pj['kind']
+    ws = _W['ws']
+    res = {'key': prog.key, 'kind': 'history', 'construct': pj.get('construct'), 'context': 'history', 'cases': [], 'load_error': None}
+    fsrc = prog.source[len(cx.CTX_PRELUDE):]
+    orig_sx = pyast.Ser(_entity_node(fsrc)).text()
+    for pi, (A, B) in enumerate(pairs):
+        try:
+            mod = ws.load(prog)
+        except Exception as e:  # noqa
+            res['load_error'] = repr(e)[:200]
+            return res
+        fn = mod.f
+        for step, names in enumerate((A, B)):
+            feats = tuple(getattr(converter.Feature, n) for n in names)
+            eq_on = 'EQUALITY_OPERATORS' in names
+            bi_on = 'BUILTIN_FUNCTIONS' in names
+            tag = 'hist:%s>%s#%d' % ('+'.join(x[0] for x in A) or '-', '+'.join(x[0] for x in B) or '-', step)
+            case = {'cfg': tag, 'cfg_id': [list(A), list(B), step], 'dis': [], 'npass': {}, 'off': None, 'nested': None, 'dircalls': 0,
+                    'anncalls': 0, 'error': None, 'dyn': [], 'skip_seen': 0, 'kinds': {}, 'pass_kinds': {}, 'regions': [[], [], []]}
+            try:
+                g = malt.to_graph(fn, recursive=False, experimental_optional_features=(feats or None))
+                src = textwrap.dedent(inspect.getsource(g))
+                node = ast.parse(src).body[0]
+            except Exception as e:  # noqa
+                case['error'] = '%s: %s' % (type(e).__name__, str(e)[:120])
+                res['cases'].append(case)
+                continue
+            ftxt = pyast.Ser(node).text()
+            ans = _drive(['c04.nonative %s %s %s' % (sexp(eq_on), sexp(bi_on), ftxt), 'c04.regions ' + ftxt])
+            case['off'] = parse_sexp(ans[0])
+            rg = parse_sexp(ans[1])
+            offids = set(o[1] for o in case['off'])
+            case['regions'] = [[i for i in r if i in offids] for r in rg]
+            case['final_source'] = src if case['off'] else None
+            try:
+                isrc = dyn.instrument(fsrc, bi_on)
+                cnt_o = dyn.Counter(); cnt_o.install(mod)
+                exec(compile(isrc, '<c04-instrumented>', 'exec'), mod.__dict__)
+                agmod = dyn.ag_module_of(g)
+                cnt_c = dyn.Counter()
+                if agmod is not None:
+                    cnt_c.patch(agmod)
+                    try:
+                        for inp in prog.inputs[:2]:
+                            dec = prog.decisions[0]
+                            r0 = progen.run_program(mod, mod.f, inp, dec)
+                            cnt_o.reset()
+                            r1 = progen.run_program(mod, mod._c04_f, inp, dec)
+                            co = cnt_o.snapshot()
+                            cnt_c.reset()
+                            r2 = progen.run_program(mod, g, inp, dec)
+                            cc = cnt_c.snapshot()
+                            same = (r0[0] == r1[0] == r2[0]) and (r0[1] == r1[1] == r2[1])
+                            fine = r0[0][0] == 'ret' or r0[0][1] in ('E1', 'E2')
+                            case['dyn'].append({'input': list(inp), 'decisions': list(dec), 'comparable': bool(same and fine),
+                                                'instr_same': r0[0] == r1[0] and r0[1] == r1[1], 'orig': co, 'ops': cc,
+                                                'outcome': list(r0[0])[:1]})
+                    finally:
+                        cnt_c.unpatch()
+            except Exception as e:  # noqa
+                case['dyn_error'] = repr(e)[:200]
+            res['cases'].append(case)
+        ws.unload(mod)
+    return res
+
+
 def _task_inner(arg):
     import c04_exprs as cx, c04_dyn as dyn, passes
     from malt.core import converter
     pj, cfg_ids, do_dyn = arg
+    if isinstance(cfg_ids, tuple) and cfg_ids and cfg_ids[0] == 'hist':
+        return _task_history(pj, cfg_ids[1])
     prog = progen.Program.from_json(pj)
     prog.kind = pj['kind']
     prog.meta = pj.get('meta', {})
@@ -272,6 +349,11 @@ def build_tasks(run, quick):
             if quick and p.construct not in ('call', 'and', 'ifexp', 'augassign', 'del', 'for', 'method', 'starcall'):
                 continue
             tasks.append((_pj(p), [8, 9] if not quick else [8 + n % 2], True))
+    # history slice: same function object through the real API under sequences of option sets (cache in play)
+    hpairs = cx.history_pairs(not quick)
+    for p in cx.history_programs():
+        for k0 in range(0, len(hpairs), 8):
+            tasks.append((_pj(p), ('hist', hpairs[k0:k0 + 8]), True))
     flt = os.environ.get('C04_FILTER')          # debugging aid only: restrict to matching context programs
     if flt:
         tasks = [t for t in tasks if flt in ('%s/%s' % (t[0].get('construct'), t[0].get('context')))]
@@ -428,7 +510,10 @@ def check(run, only_corpus=None):
                 'entity-level shapes, lambda entities, malformed directives); configurations: every '
                 'subset of {BUILTIN_FUNCTIONS, EQUALITY_OPERATORS} x recursive in {T,F} (all 8 for entity shapes and in the thorough tier, '
                 'every feature subset for option-sensitive constructs, rotating otherwise) plus two LISTS configurations on programs '
-                'with subscripts/lists (slices.py modelled, lists.py not). A case = (program, configuration); non-trivial = conversion '
+                'with subscripts/lists (slices.py modelled, lists.py not); plus the history slice: the SAME function object converted through the '
+                'real malt.to_graph (process-wide cache) under every ordered pair of subsets of {BUILTIN_FUNCTIONS, EQUALITY_OPERATORS, LISTS, '
+                'ASSERT_STATEMENTS} differing in one feature (quick: all pairs flipping BUILTIN_FUNCTIONS/EQUALITY_OPERATORS + a sample), each '
+                'served result checked with noNative and the count oracle under the option set of THAT request. A case = (program, configuration); non-trivial = conversion '
                 'succeeded and the function contains at least one overloadable construct; distinct by (program hash, config).')
     run.assumptions += [
         'anno.Basic.SKIP_PROCESSING is never set by a converter (asserted on every snapshot; the models leave it out)',
@@ -484,6 +569,7 @@ def check(run, only_corpus=None):
                  'by_kind_orig': dict.fromkeys(dyn.KINDS, 0)}
     dyn_bad = []
     ctx_matrix = set()
+    history = {'requests': 0, 'served_trees_checked': 0, 'errors': 0}
     pass_kinds = {}
     kinds = {}
     skip_seen = 0
@@ -494,6 +580,10 @@ def check(run, only_corpus=None):
             continue
         for case in res['cases']:
             key = (res['key'], case['cfg'])
+            if res['kind'] == 'history':
+                history['requests'] += 1
+                history['served_trees_checked'] += case['off'] is not None
+                history['errors'] += case['error'] is not None
             skip_seen = max(skip_seen, case['skip_seen'])
             nontriv = case['error'] is None
             run.case(key, nontriv)
@@ -600,6 +690,7 @@ def check(run, only_corpus=None):
         'final_trees_checked': checked_final,
         'conversion_errors_by_type (cases without a final tree; correspondence still compared up to the failing pass)': conv_errors,
         'known_finding_cases': known_hits,
+        'history_slice (same function object through malt.to_graph under ordered pairs of option sets differing in one feature)': history,
         'context_matrix_cells': len(ctx_matrix),
         'dynamic': dyn_stats,
         'exhaustive': False,
@@ -627,7 +718,10 @@ def replay(run, path):
     pj['kind'] = 'replay'
     pj['construct'] = case.get('construct')
     pj['context'] = case.get('context')
-    check(run, only_corpus=[(pj, case.get('cfg_ids', list(range(8))), True)])
+    ids = case.get('cfg_ids', list(range(8)))
+    if case.get('context') == 'history' and ids and isinstance(ids[0], list):
+        ids = ('hist', [(tuple(ids[0][0]), tuple(ids[0][1]))])
+    check(run, only_corpus=[(pj, ids, True)])
     return run.finish()
 
 
